@@ -195,6 +195,26 @@ def gen_stringq():
     return out
 
 
+def gen_constops():
+    """every binary integer operator over a grid of small constants as the offset operand of `at`, of a range bound and of a reader: the compiler folds the
+    constant (and uses the folded value as a fixed-offset hint for `at`), the VM computes it again - both must be the documented value"""
+    out = []
+    G = [0, 1, 2, 3, 4, 5, 6, 7, 8, 9, 12]
+    for op in ("+", "-", "*", "\\", "%", "&", "|", "^", "<<", ">>"):
+        for x in G:
+            for y in G:
+                if op in ("\\", "%") and y == 0: continue
+                e = Bin(op, Int(x), Int(y))
+                out.append(("constops:at:" + op, At("a", e)))
+                out.append(("constops:at:" + op, At("b", e)))
+                try: v = e.ev(Ctx())
+                except Exception: v = None
+                if isinstance(v, int) and 0 <= v <= 12:                  # a constant lower bound above the upper one (or negative) is rejected at compile time by design
+                    out.append(("constops:in:" + op, In("a", e, Int(12))))
+                out.append(("constops:read:" + op, Bin("==", Read("uint8", e), Int(0x61))))
+    return out
+
+
 def gen_of():
     out = []
     sets = [("them", ["a", "b", "c"]), ("($a,$b)", ["a", "b"]), ("($a*)", ["a"]), ("($c,$a*)", ["c", "a"]), ("($*)", ["a", "b", "c"])]
@@ -291,7 +311,7 @@ def gen_compose():
 
 
 THOROUGH = False
-SUBSPACES = [("optables", gen_optables), ("precedence", gen_precedence), ("undefined", gen_undefined), ("stringq", gen_stringq), ("of", gen_of),
+SUBSPACES = [("optables", gen_optables), ("precedence", gen_precedence), ("undefined", gen_undefined), ("stringq", gen_stringq), ("constops", gen_constops), ("of", gen_of),
              ("forin", gen_forin), ("compose", gen_compose)]
 SV_EXT = [("s%d" % i, "s", v) for i, v in enumerate([b"", b"a", b"A", b"ab", b"b"])]
 
